@@ -123,6 +123,57 @@ class Spec:
         self.chop: Optional[Callable[[dict], None]] = None  # applies the documented chop calls
         self.chop_claimed = True  # the statement promises that these chops suffice
         self.extra: Dict[str, Any] = {}
+        # (origin, axis, angle): every vertex whose image under this rotation is a vertex is joined to it by an arc
+        # about that axis (side edges of revolved shapes and stacks)
+        self.revolves: List[Tuple[np.ndarray, np.ndarray, float]] = []
+
+    def transform(self, P: np.ndarray) -> None:
+        """maps the ground truth with the rigid map P (the entities are moved separately, by the library)"""
+        for c in self.circles:
+            c.c, c.n = rm.apply(P, c.c), rm.apply_dir(P, c.n)
+        self.revolves = [(rm.apply(P, o), rm.apply_dir(P, a), ang) for o, a, ang in self.revolves]
+        ex = self.extra
+        if "sphere" in ex:
+            ex["sphere"] = (rm.apply(P, ex["sphere"][0]), ex["sphere"][1])
+        if "corners" in ex:
+            ex["corners"] = [rm.apply(P, q) for q in ex["corners"]]
+        if "ends" in ex:
+            ex["ends"] = [(rm.apply(P, c), rm.apply_dir(P, n), r) for c, n, r in ex["ends"]]
+        if "axis" in ex:
+            ex["axis"] = (rm.apply(P, ex["axis"][0]), rm.apply_dir(P, ex["axis"][1]))
+        if "outer_pts" in ex:
+            ex["outer_pts"] = [rm.apply(P, q) for q in ex["outer_pts"]]
+        if "maps" in ex:
+            Pinv = np.linalg.inv(P)
+            ex["maps"] = [P @ T @ Pinv for T in ex["maps"]]
+
+
+@st.composite
+def post_transforms(draw):
+    """None, or a rigid motion applied to the *built* entity with the library's rotate / translate: rotation about a
+    general axis through a general origin (never parallel to a coordinate axis), then a translation"""
+    if draw(st.sampled_from([True, False])):
+        return None
+    k = draw(st.integers(0, 2))
+    ax = [draw(st.floats(0.15, 1.0)) * draw(st.sampled_from([-1.0, 1.0])) for _ in range(3)]
+    ax[k] = draw(st.sampled_from([-1.0, 1.0]))
+    return {
+        "axis": ax,
+        "angle": draw(st.floats(0.2, math.pi - 0.2)) * draw(st.sampled_from([-1.0, 1.0])),
+        "origin": [draw(st.floats(-5.0, 5.0)) for _ in range(3)],
+        "t": [draw(st.floats(-5.0, 5.0)) for _ in range(3)],
+    }
+
+
+def post_matrix(post) -> np.ndarray:
+    if post is None:
+        return np.eye(4)
+    return rm.m_translate(post["t"]) @ rm.m_rotate(post["angle"], post["axis"], post["origin"])
+
+
+def move_entity(entity, post) -> None:
+    entity.rotate(post["angle"], post["axis"], post["origin"])
+    entity.translate(post["t"])
 
 
 def chop_kwargs(chops: dict, k: int, size: float) -> dict:
@@ -428,6 +479,58 @@ def check_circles(dec: Decoded, circles: Sequence[Circle], facts: dict) -> int:
     return sum(found)
 
 
+def check_revolve_arcs(dec: Decoded, revolves, size: float, facts: dict) -> int:
+    """side edges of revolved shapes: a vertex and its image under the revolution are joined by an arc whose third
+    point has the same distance from the axis and the same axial position, on the short side"""
+    arcs = {}
+    for e in dec.bmd.edges:
+        if e.kind == "arc" and isinstance(e.payload, tuple) and len(e.payload) == 3:
+            arcs[(e.a, e.b)] = np.asarray(e.payload, float)
+    checked = 0
+    for o, a, ang in revolves:
+        a = rm.unit(a)
+        img = rm.apply(rm.m_rotate(ang, a, o), dec.pos)
+
+        def polar_of(p):
+            d = p - o
+            ax = float(d @ a)
+            return ax, d - ax * a
+
+        for i in range(len(dec.pos)):
+            dist = np.linalg.norm(dec.pos - img[i], axis=1)
+            j = int(np.argmin(dist))
+            if j == i or dist[j] > 1e-6 * size + 5e-8:
+                continue
+            ax_i, rad_i = polar_of(dec.pos[i])
+            rho = float(np.linalg.norm(rad_i))
+            tol = 1e-6 * rho + 5e-8
+            if rho <= 1e-6 * size + 5e-8:
+                continue  # on the axis
+            p = arcs.get((i, j))
+            if p is None:
+                p = arcs.get((j, i))
+            if p is None:
+                # the library drops arcs that are straight within TOL = 1e-7; within 10x either outcome is accepted
+                if 4 * rho**2 * math.sin(abs(ang) / 4) ** 2 * math.sin(abs(ang) / 2) >= 1e-6:
+                    raise Violation("side-arc-missing", f"vertices {i} and {j} (its image under the revolution) are not "
+                                    "joined by an arc", **facts)
+                continue
+            checked += 1
+            ax_p, rad_p = polar_of(p)
+            if abs(ax_p - ax_i) > tol or abs(float(np.linalg.norm(rad_p)) - rho) > tol:
+                raise Violation(
+                    "arc-off-circle",
+                    f"side arc {i}-{j}: third point at distance {np.linalg.norm(rad_p):.9g} from the axis of revolution "
+                    f"(axial offset {ax_p - ax_i:.3g}); the end points are at {rho:.9g}",
+                    radius_error=float(abs(np.linalg.norm(rad_p) - rho) / rho), **facts,
+                )
+            _, rad_j = polar_of(dec.pos[j])
+            ang_of = lambda u, v: math.acos(max(-1.0, min(1.0, float(u @ v) / (np.linalg.norm(u) * np.linalg.norm(v)))))  # noqa: E731
+            if abs(ang_of(rad_i, rad_p) + ang_of(rad_p, rad_j) - ang_of(rad_i, rad_j)) > 1e-4:
+                raise Violation("arc-wrong-side", f"side arc {i}-{j}: third point is not between the end points", **facts)
+    return checked
+
+
 def check_shared_edge_counts(dec: Decoded, facts: dict) -> int:
     _uf, edge_map = rm.families(dec.hexes)
     shared = 0
@@ -723,6 +826,9 @@ def build_sketch_shape(sp: dict, q: dict, place) -> Spec:
         for cc, rr, na in truth.circles:
             s.circles.append(Circle(rm.apply(T, W(M, cc)), rm.apply_dir(T, n), rr * k, na))
     s.extra.update(shape=shape, sketch=sketch, truth=truth, maps=maps)
+    if q["how"] == "revolve":
+        e = D(M, polar(1.0, q["psi"]))
+        s.revolves = [(W(M, [0, 0, 0]) + e * q["bend"] * sketch_extent(sp), np.cross(n, e), q["angle"])]
     if sp["kind"] == "Grid":
         s.chop_claimed = False
 
@@ -798,6 +904,9 @@ def build_stack(sp: dict, q: dict, place) -> Spec:
         for cc, rr, na in truth.circles:
             s.circles.append(Circle(rm.apply(T, W(M, cc)), rm.apply_dir(T, n), rr, na))
     s.extra.update(shape=stack, sketch=sketch, truth=truth, maps=maps)
+    if how == "revolved":
+        e = D(M, polar(1.0, q["psi"]))
+        s.revolves = [(c + e * q["bend"] * sketch_extent(sp), np.cross(n, e), q["angle"] / k)]
     if sp["kind"] == "Grid":
         s.chop_claimed = False
 
